@@ -1,6 +1,6 @@
 (* C06 — the live view shows exactly the messages matching the current filter. *)
 From WD Require Import Base Wire Protocol Conn Color LetterId Matcher MatcherParse Show Session.
-From WD Require Import ControllerProofs SessionProofs.
+From WD Require Import ControllerProofs SessionProofs StreamSpecA.
 Open Scope Z_scope.
 
 (* for every sequence of arriving messages, filter changes and selection changes: the message
@@ -37,3 +37,22 @@ Example C06_ex :
              CMsg 0 db_init (s2l "A") m1; CMsg 0 db_init (s2l "A") m2; CSelect (Some 1%nat); CMsg 0 db_init (s2l "A") m2] in
   shown_msgs (snd (crun false k es)) = [(0%nat, m1); (0%nat, m2)] /\ List.length (k_all (fst (crun false k es))) = 4%nat.
 Proof. vm_compute. split; reflexivity. Qed.
+
+(* ---- THE WHOLE SESSION (Proofs/StreamSpecA.v): any start state, any events in between (commands of
+   every kind, text lines, other connections' lines).  For the k-th event, a message line: what the
+   live view shows for it is exactly  live_spec  of the controller state in force just before it and
+   of what the line resolves to on its connection (arrival): shown iff it resolved, its connection
+   passes the selection in force and it matches the filter in force; once. *)
+Theorem C06_live_view_event : forall P T evs k id m,
+  nth_error evs k = Some (EMsg id m) ->
+  let Tk := fst (run P T (firstn k evs)) in
+  exists o, nth_error (snd (run P T evs)) k = Some o /\
+            shown_msgs o = live_spec (s_ctrl (t_sess Tk)) (arrival_top P Tk id m).
+Proof. exact live_view_event. Qed.
+Print Assumptions C06_live_view_event.
+
+(* all message lines of a stream: each shown item once, in arrival order *)
+Theorem C06_live_view_stream : forall P evs T,
+  live_shown evs (snd (run P T evs)) = live_expected P T evs.
+Proof. exact live_view_stream. Qed.
+Print Assumptions C06_live_view_stream.
